@@ -1,6 +1,6 @@
 """C07 -- each source subexpression is evaluated once, in Python's order."""
 import itertools, json, sys
-from common import Check, fresh_oneliner, load_known_findings
+from common import Check, fresh_oneliner, load_known_findings, StepLimit
 import gen_prog, lower_common
 
 PRE = '''
@@ -111,10 +111,11 @@ def run(code, mode):
     g = {'L': lambda *a: log.append(a)}
     exec(PRE, g)
     try:
-        if mode == 'exec':
-            exec(compile(code, '<s>', 'exec'), g)
-        else:
-            eval(compile(code, '<o>', 'eval'), g)
+        with StepLimit():
+            if mode == 'exec':
+                exec(compile(code, '<s>', 'exec'), g)
+            else:
+                eval(compile(code, '<o>', 'eval'), g)
     except BaseException as e:
         log.append(('EXC', type(e).__name__, str(e)[:50]))
     return [repr(x) for x in log]
